@@ -1,9 +1,6 @@
 """C12 — a level-limited load returns the tree truncated at that level, without holes."""
 from __future__ import annotations
 
-from . import io_rules as io
-from . import io_rules2 as io2
-from . import loader_rules as lr
 
 EXPLANATION = '(R1) Loader.load fold: the level cap is computed from the mesh predicates before the readers are initialised, bounds the level loop, is absent without a level predicate and rebuilt on every load; (R2) leaf flag over {son} x {below / at the cap}; (R3) find_max_amr_level on a list model of the levels 1..6 over 7 predicate shapes (bands, single level, lower bound): the highest accepted level; hilbert_cpu_list hands lmax and levelmax on; (R4) a level-limited reload starts from empty per-variable pieces (descriptor_to_variables history; two-load history of the loader).'
 NOT_DECIDED = "predicates that are not monotone in a way the 7 shapes do not represent; levelmax above the model's 6"
